@@ -8,5 +8,7 @@
 pub mod sym;
 pub mod ring;
 pub mod c16;
+pub mod blk;
+pub mod c08;
 
 include!("gen.rs");
